@@ -45,6 +45,9 @@ func c05History(r *vhlib.Run, m *vhlib.Model, which string, cfg xwCfg, ops []xwO
 	}
 	if !res.SetOffsets { // the Writer model has no operation for assigning the statistics fields
 		r.CaseLive(m, "xw", xwArgs(cfg, ops), res.Obs())
+		// contract K1 (hypothesis of the round-trip theorems) on the chunks the real
+		// compressor just produced for the model
+		r.FlushK1(m, 30)
 	}
 	if res.NewErr != "nil" {
 		r.Hist["refused"]++
